@@ -92,7 +92,7 @@ func init() {
 	Theory["p256c"] = TheoryFn{SMT: "p256c", Ret: "Iface"}
 	Theory["s256c"] = TheoryFn{SMT: "s256c", Ret: "Iface"}
 	Theory["s256p"] = TheoryFn{SMT: "s256p", Ret: "Ptr"}
-	for _, f := range []string{"curveN", "curveP", "curveBits", "bitlen", "pubX", "pubY", "hkdfSha256", "hkdfNat"} {
+	for _, f := range []string{"curveN", "curveP", "curveBits", "bitlen", "pubX", "pubY", "hkdfSha256", "hkdfNat", "decompY"} {
 		Theory[f] = TheoryFn{SMT: f, Ret: "Int", RetT: typInt}
 	}
 	for _, f := range []string{"ecdsaEq", "ecdsaSigOf", "onCurve", "compressedOK"} {
@@ -389,6 +389,11 @@ func ecdsaTheory(hs string) string {
 	b.WriteString("(declare-fun ecdsaEq (Iface Int Int Int Int Int) Bool)\n(declare-fun ecdsaSigOf (Iface Int Int Int Int) Bool)\n")
 	b.WriteString("(declare-fun pubX (Iface Int) Int)\n(declare-fun pubY (Iface Int) Int)\n(declare-fun onCurve (Iface Int Int) Bool)\n(declare-fun compressedOK (Iface Int Int) Bool)\n")
 	b.WriteString("(declare-fun hkdfSha256 (Int Int Int Int) Int)\n(declare-fun hkdfNat (Int Int Int Int) Int)\n")
+	// decompY(c, tag, x): the y coordinate X9.62 decompression selects for the tag byte (2: even y, 3: odd y). A point of the
+	// curve with reduced coordinates is what decompressing its own compressed form gives back (assumed: at most one y of
+	// each parity below p satisfies the curve equation for a given x).
+	b.WriteString("(declare-fun decompY (Iface Int Int) Int)\n")
+	b.WriteString("(assert (forall ((c Iface) (x Int) (y Int)) (! (=> (and (onCurve c x y) (<= 0 y) (< y (curveP c))) (and (compressedOK c (+ 2 (mod y 2)) x) (= (decompY c (+ 2 (mod y 2)) x) y))) :pattern ((onCurve c x y)))))\n")
 	// the public point of a scalar in [1, n-1] is a point of the curve with coordinates below p
 	b.WriteString("(assert (forall ((c Iface) (d Int)) (! (=> (and (<= 1 d) (< d (curveN c))) (and (onCurve c (pubX c d) (pubY c d)) (<= 0 (pubX c d)) (< (pubX c d) (curveP c)) (<= 0 (pubY c d)) (< (pubY c d) (curveP c)))) :pattern ((pubX c d)))))\n")
 	return b.String()
